@@ -406,23 +406,20 @@ def check_preempt(case, rec):
                 run_b(k)
             finally:
                 pre.paused = False
-            ran_inside[k] = True
+            ran_inside[k] = not a_done
 
         return f
 
     def action(k):
         def act():
             states.append(raw_state(S))
-            if guard.found and guard.a_writer:
-                rec.cls("preempt.blocked_on_writer_lock")
+            if guard.found and guard.a_holds():
+                # a real second thread would block on the library's own lock here: B runs when A has released it
+                rec.cls("preempt.B_blocked_on_%s_lock_held_by_A" % ("writer" if guard.a_writer else "reader"))
                 guard.deferred.append(deferred(k))
                 return
-            try:
-                run_b(k)
-                ran_inside[k] = True
-            except sched._WouldBlock:
-                rec.cls("preempt.blocked_on_lock_inside_B")
-                guard.deferred.append(deferred(k))
+            run_b(k)
+            ran_inside[k] = True
 
         return act
 
@@ -436,7 +433,9 @@ def check_preempt(case, rec):
             actions[i] = act
         else:
             actions[i] = (lambda p, a: (lambda: (p(), a())))(prev, act)
+    a_done = False
     res_a, _, fired = pre.run(lambda: run_op(ctx, case["a"]), actions)
+    a_done = True
     for f in guard.deferred:  # A never released what B waits for before finishing: B runs now
         f()
     guard.deferred = []
@@ -524,11 +523,12 @@ def combos(tier, curve, level):
         cross("pub", [a for a in pub_a if a[0] not in long_a], pub_b)
         cross("vkpre", pre_a[:1], [pre_b[0], pre_b[2], pre_b[3]])
         cross("vkpre", pre_a[1:], [pre_b[1]])
-    else:  # core
-        cross("gen", [gen_a[0], gen_a[2]], [gen_b[0], gen_b[5]])
+    else:  # core / lean
+        cross("gen", [gen_a[0], gen_a[2]] if level == "core" else [gen_a[0]], [gen_b[0], gen_b[5]])
         cross("pub", [pub_a[0], pub_a[1]], [pub_b[0], pub_b[1], pub_b[3], pub_b[4], pub_b[7]])
         cross("pub", [pub_a[2], pub_a[5]], [pub_b[0], pub_b[1]])
-        cross("vkpre", pre_a[:1], pre_b[1:2])
+        if level == "core":
+            cross("vkpre", pre_a[:1], pre_b[1:2])
     return out
 
 
@@ -555,19 +555,19 @@ def sweep_enum(plan):
 def plan_line(tier):
     if tier == "quick":
         return [("SECP112r1", "quick", "line", False), ("BRAINPOOLP160r1", "core", "line", False)]
-    return [("SECP112r1", "full", "line", True), ("BRAINPOOLP160r1", "full", "line", True), ("NIST256p", "full", "line", False), ("NIST384p", "core", "line", False)]
+    return [("SECP112r1", "full", "line", True), ("BRAINPOOLP160r1", "full", "line", False), ("NIST256p", "quick", "line", False), ("NIST384p", "lean", "line", False)]
 
 
 def plan_instr(tier):
     if tier == "quick":
         return []
-    return [("SECP112r1", "full", "instr", False)]
+    return [("SECP112r1", "quick", "instr", False)]
 
 
 def plan_instr_helpers(tier):
     if tier == "quick":
         return []
-    return [("SECP112r1", "core", "instr", True)]
+    return [("SECP112r1", "lean", "instr", True)]
 
 
 # ---------------------------------------------------------------------------------------------------- sampled schedules
@@ -721,11 +721,14 @@ def share_bulk(tier, shard, nshards, rec, rng):
         readers_in = [t for t, r in w.holders.items() if r == "R"]
         if not readers_in:
             return
+        # every other thread is out of the way: not started, inside its critical section, or finished (a thread that is
+        # in the middle of an acquire/release legitimately holds entry locks for a moment - it is not run by the probe)
+        idle = [t for t in range(w.n) if w.status[t] == "done" or w.steps[t] == 0 or t in w.holders]
         for t in range(w.n):
             if ex_.roles[t] == "W" and not (w.status[t] == "done" or w.steps[t] == 0):
                 return
         for t in range(w.n):
-            if ex_.roles[t] == "R" and w.status[t] == "parked" and not w.entered.get(t):
+            if ex_.roles[t] == "R" and w.status[t] == "parked" and not w.entered.get(t) and len(idle) >= w.n - (0 if t in idle else 1):
                 probes[0] += 1
                 if not ex2.solo(list(path), t, lambda w2, t=t: t in w2.holders):
                     raise sched.SchedViolation("reader T%d is kept waiting although reader(s) %s hold the lock and no writer has started acquiring" % (t, readers_in), list(path))
@@ -747,6 +750,29 @@ def share_bulk(tier, shard, nshards, rec, rng):
     return None
 
 
+def strat_lock_sampled(tier):
+    roles = st.sampled_from(["RRRWW", "RRWWW", "RRRRW", "RWWWW", "RRRWWW", "RRRR", "RRWW", "RRRW"])
+    return st.fixed_dictionaries(dict(roles=roles, rounds=st.sampled_from([1, 1, 2, 3]), choices=st.lists(st.integers(0, 5), min_size=0, max_size=400)))
+
+
+def check_lock_sampled(case, rec):
+    """Larger thread sets than the exhaustively explored ones: one Hypothesis-chosen schedule per case."""
+    ex = _explorer(case["roles"], case["rounds"])
+    try:
+        try:
+            contended, path = ex.run_choices(case["choices"])
+        except sched.SchedViolation as v:
+            raise Violation("%s x%d, schedule %s: %s" % (case["roles"], case["rounds"], v.schedule, v.msg))
+    finally:
+        ex.close()
+    rec.cls("lock.sampled.threads=%d" % len(case["roles"]))
+    rec.cls("lock.sampled.rounds=%d" % case["rounds"])
+    if ex.stats["two_readers"]:
+        rec.cls("lock.sampled.two_readers_seen")
+    if contended:
+        rec.nt(key=(case["roles"], case["rounds"], path))
+
+
 def check_share_schedule(case, rec):
     check_lock_schedule(case, rec)
 
@@ -762,6 +788,7 @@ def parts(tier):
         Part("lock_2r1w", check=check_lock_schedule, bulk=lock_bulk("lock_2r1w", "RRW"), quick=(1, 0), thorough=(1, 0), exhaustive=True),
         Part("lock_1r2w", check=check_lock_schedule, bulk=lock_bulk("lock_1r2w", "RWW"), quick=(1, 0), thorough=(1, 0), exhaustive=True),
         Part("lock_share", check=check_share_schedule, bulk=share_bulk, quick=(2, 0), thorough=(4, 0), exhaustive=True),
+        Part("lock_sampled", check=check_lock_sampled, strategy=strat_lock_sampled, quick=(4, 100), thorough=(16, 1500)),
     ]
     if tier == "thorough":
         ps += [
